@@ -122,7 +122,7 @@ def build(config, tier):
                 # overflow-free in EVERY association order iff the sum of its positive terms and the sum of its
                 # negative terms both fit (checked_add chains of same-signed terms are order independent).
                 zero = "(0 as %s)" % t
-                if (bits >= 32 and m in ("cross", "element_product", "length_squared", "distance_squared")) or (bits == 64 and m == "dot"):
+                if (bits >= 16 and m in ("cross", "element_product")) or (bits >= 32 and m in ("length_squared", "distance_squared")) or (bits == 64 and m == "dot"):
                     # measured: cvc5 and CaDiCaL both exceed the timeout on these multi-term 32/64-bit products
                     undecidable.append("%s::%s (multi-term %d-bit products: solver limit)" % (N, m, bits))
                     continue
@@ -279,4 +279,4 @@ def run(s):
     return s.finish(level_note="generated full-domain lane-lift clauses for the 27 integer vector types (value, checked_, must-panic)",
                     trusted_base=["Kani 0.68 / CBMC 6.11 / CaDiCaL; CBMC SMT2 back end + cvc5 for wide multipliers/dividers"],
                     extra_cov={"uncovered_functions": unc, "not_decided_functions": und},
-                    not_decided=["cross/element_product/length_squared/distance_squared of the 32/64-bit types and dot of the 64-bit types (solver limit; listed under not_decided_functions)", "release profile (overflow checks off)", "Sum/Product over iterators", "exact panic boundary of multi-term reductions"])
+                    not_decided=["cross/element_product of the 16/32/64-bit types, length_squared/distance_squared of the 32/64-bit types and dot of the 64-bit types (solver limit; listed under not_decided_functions)", "release profile (overflow checks off)", "Sum/Product over iterators", "exact panic boundary of multi-term reductions"])
